@@ -239,6 +239,47 @@ PLANS.update({
 })
 
 
+def A_equal(name, level, triples=True, **kw):
+    def run(ctx):
+        consts = {'Level': level, 'EmitOn': 'TRUE', 'Triples': 'TRUE' if triples else 'FALSE'}
+        run_A(ctx, 'MCEqual', name, consts, invariants=('Reflexive', 'Symmetric', 'Transitive', 'NullOnlyNull', 'OrderBlind'),
+              spec='ESpec', **kw)
+    return run
+
+
+def A_decode(name, pairs, **kw):
+    def run(ctx):
+        run_A(ctx, 'MCDecode', name, {'EmitOn': 'TRUE', 'Pairs': pairs}, invariants=('BaseAccepted',), spec='DSpec', **kw)
+    return run
+
+
+PLANS.update({
+    'C06': {
+        'quick': [A_equal('eq', 2)],
+        'thorough': [A_equal('eq', 2), A_equal('eq3', 3, triples=False, timeout=9000)],
+        'rule': 'TLC enumerates every pair of the bounded universe plus near-misses (members reordered, elements swapped, null at the root / '
+                'in arrays / as member) with the verdict of structural equality, and checks reflexivity, symmetry, transitivity (all triples '
+                'a=b, c) and null-only-null on the specification; the real Equal is called on 2x2 spellings of each pair in both argument '
+                'orders; malformed texts are covered by the words of C16; distinct_nontrivial counts distinct pairs inside the domain',
+        'exhaustive': True, 'assumptions': MERGE_ASSUME,
+        'required_labels': {'quick': ['Equal_true', 'Equal_false', 'Equal_nullroot'], 'thorough': ['Equal_true', 'Equal_false', 'Equal_nullroot']},
+    },
+    'C11': {
+        'quick': [A_decode('dec', 1)],
+        'thorough': [A_decode('dec', 2, timeout=3000)],
+        'rule': 'TLC enumerates the six valid operation shapes and every document obtained by deleting, nulling, retyping (7 JSON values), '
+                'renaming (case), duplicating (before/after) each member, odd op names, extra members, non-object elements, non-array roots, '
+                'and two-element documents [valid, mutated] / [mutated, valid] (thorough: all double mutations); the specification predicate '
+                'Accepts decides each; the real DecodePatch must agree on two spellings, the accessors must return the members, and every '
+                'accepted patch is applied to four probe documents under recover(); distinct_nontrivial counts documents',
+        'exhaustive': True,
+        'assumptions': ['duplicate member names follow Go\'s last-wins rule (stated in spec/DecodePatch.tla)',
+                        'the independent JSON reader of harness/jsonread is the projection'],
+        'required_labels': {'quick': ['Decode_true', 'Decode_false'], 'thorough': ['Decode_true', 'Decode_false']},
+    },
+})
+
+
 def replay_file(ctx, plan, path):
     """Re-run one recorded case (bin/check <id> --replay <file>)."""
     v = json.load(open(path))
